@@ -971,6 +971,60 @@ example :
        ((R.st.rows[4]?).map (·.radec) != gaRef.radec[2]?)
      | _, _ => false) = true := by decide +kernel
 
+/-- **editing a source without positive weight changes nothing (symbolic discharge of `hag`).**  Replace ANY single
+row `i0` of the group catalog — pixel position, sky position, identifiers — by an arbitrary row `r'`, where the
+weight column exists and does not give `i0` a positive weight (`¬ PosW`: weight `≤ 0`, or `i0` outside the column).
+The hypothesis `hag` of `group_zero_weight_source_irrelevant` then holds by construction, for every matcher answer
+and every reference catalog, so the two runs have the same result (`GWL.SameResult`). -/
+theorem group_zero_weight_row_edit {C : Type} (ops : CorrOps C K) (cfg : FitCfg K)
+    (ms : List (GMember C K)) (st1 : GState K) (i0 : Nat) (r' : GRow K) (hz : ¬ PosW st1.weight i0)
+    (hne : st1.catlen ≠ 0) (ref : RefCat K) (mref minput : List Int) (minobj : Option Nat) (fitmin : Nat) :
+    SameResult ops ms ms st1.rows (st1.rows.set i0 r')
+      (groupAlignToRef ops cfg ms st1 ref (some (mref, minput)) minobj fitmin)
+      (groupAlignToRef ops cfg ms { st1 with rows := st1.rows.set i0 r' } ref (some (mref, minput)) minobj fitmin) := by
+  refine group_zero_weight_source_irrelevant ops cfg ms ms rfl st1 _ (List.length_set ..) hne ref mref minput minobj
+    fitmin ?_
+  intro inp rf _ _ k i j _ _ hpi _
+  by_cases h : i0 = i
+  · subst h; exact absurd hpi hz
+  · rw [List.getElem?_set_ne h]
+
+/-- … and for any FINITE SET of such rows edited one after the other (`edits : List (Nat × GRow K)`, every edited
+index without positive weight): induction over the edit list is not needed for the two-run statement — the
+agreement hypothesis is checked row by row. -/
+theorem group_zero_weight_rows_edit {C : Type} (ops : CorrOps C K) (cfg : FitCfg K)
+    (ms : List (GMember C K)) (st1 : GState K) (edits : List (Nat × GRow K))
+    (hz : ∀ e ∈ edits, ¬ PosW st1.weight e.1)
+    (hne : st1.catlen ≠ 0) (ref : RefCat K) (mref minput : List Int) (minobj : Option Nat) (fitmin : Nat) :
+    SameResult ops ms ms st1.rows (edits.foldl (fun rs e => rs.set e.1 e.2) st1.rows)
+      (groupAlignToRef ops cfg ms st1 ref (some (mref, minput)) minobj fitmin)
+      (groupAlignToRef ops cfg ms { st1 with rows := edits.foldl (fun rs e => rs.set e.1 e.2) st1.rows } ref
+        (some (mref, minput)) minobj fitmin) := by
+  have hlen : ∀ (es : List (Nat × GRow K)) (rs : List (GRow K)),
+      (es.foldl (fun rs e => rs.set e.1 e.2) rs).length = rs.length := by
+    intro es; induction es with
+    | nil => intro rs; rfl
+    | cons e es ih => intro rs; simp only [List.foldl_cons]; rw [ih, List.length_set]
+  have hget : ∀ (es : List (Nat × GRow K)) (rs : List (GRow K)) (i : Nat), (∀ e ∈ es, e.1 ≠ i) →
+      (es.foldl (fun rs e => rs.set e.1 e.2) rs)[i]? = rs[i]? := by
+    intro es; induction es with
+    | nil => intro rs i _; rfl
+    | cons e es ih =>
+      intro rs i h; simp only [List.foldl_cons]
+      rw [ih _ _ (fun e' he' => h e' (List.mem_cons_of_mem _ he')),
+        List.getElem?_set_ne (h e List.mem_cons_self)]
+  refine group_zero_weight_source_irrelevant ops cfg ms ms rfl st1 _ (hlen _ _) hne ref mref minput minobj fitmin ?_
+  intro inp rf _ _ k i j _ _ hpi _
+  rw [hget edits st1.rows i (fun e he h => hz e he (h ▸ hpi))]
+
+-- non-vacuity: in the concrete group `gaMsZ (1, 1)` row 4 has weight 0 — `¬ PosW` holds — and `catlen ≠ 0`
+example : (match createGroupOf gaOps (gaMsZ (1, 1)) with
+     | .ok st1 => st1.weight == some [1, 2, 1, 3, 0, 2] && st1.catlen != 0
+     | _ => false) = true := by decide +kernel
+example : ¬ PosW (some [1, 2, 1, 3, 0, 2] : Option (List Rat)) 4 := by
+  intro h; obtain ⟨x, hx, hpos⟩ := h _ rfl
+  simp at hx; subst hx; exact lt_irrefl _ hpos
+
 end groupWeights
 end TW.C05
 
